@@ -10,6 +10,7 @@ import (
 
 	"golang.org/x/tools/go/ssa"
 
+	"verif/checker/absint"
 	"verif/checker/effects"
 	"verif/checker/guards"
 	"verif/checker/load"
@@ -28,6 +29,7 @@ type Ctx struct {
 	Samples []interface{}
 	// limbPositional names abstract Element inputs by position (for sibling comparison)
 	limbPositional bool
+	cglob          map[string]map[string]absint.Val
 	Extra   map[string]interface{}
 }
 
